@@ -21,7 +21,11 @@ def project(c, users=True, blocks=True):
     }
     if users:
         for label in order:
-            us = list(c.get_gate_users(label))
+            try:
+                us = list(c.get_gate_users(label))
+            except Exception as e:
+                # an accessor that raises on a gate of the circuit is an observation (the users clause fails), not a harness failure
+                us = ['<get_gate_users raised ' + type(e).__name__ + '>']
             if us:
                 rec['u'][label] = us
     if blocks:
